@@ -53,6 +53,14 @@ class C06(WigBedProp):
                 kind = "bed"
                 if any(a[1] > b[0] for nm in names for a, b in zip(data[nm], data[nm][1:])):
                     tags.add("nt")
+            if kind == "bed" and k % 8 != 5 and k % 5 == 2:
+                # the last entry of a chromosome reaches PAST the declared chromosome length (the writer accepts it: only a start at
+                # or beyond the length is refused; the readers return it): its bases count like any others
+                nm = names[k % len(names)]
+                last = data[nm][-1]
+                data[nm] = data[nm][:-1] + [(last[0], sizes[nm] + r.choice([1, 7, 50, 75]), last[2])]
+                lines = [bbgen.opt_line(o)] + bbgen.bed_lines(names, sizes, data)
+                tags.add("entry_reaches_past_the_chromosome_end")
             tags.add(kind)
             out.append(CaseT(f"s{k}", kind, [], lines, self.common_tags(o, names, data, tags)))
         return out
